@@ -1,13 +1,31 @@
 #!/usr/bin/env python3
-"""run_benign.py — behaviour-preserving edits (/verif/benign/<PROP>/*.patch) must NOT raise an alarm: ./check exits 0"""
+"""run_benign.py [--own] — behaviour-preserving edits (/verif/benign/<PROP>/*.patch) must NOT raise an alarm in ANY
+check: each patch is applied to a scratch copy and all 20 checks run against it (--own: only the check of the
+directory the patch lives in)."""
 import glob, os, subprocess, sys
 V = os.path.dirname(os.path.dirname(os.path.abspath(__file__)))
+ALL = ["C%02d" % i for i in range(1, 21)]
+own = "--own" in sys.argv
 bad = 0
 for pat in sorted(glob.glob(os.path.join(V, "benign", "C*", "*.patch"))):
     p = os.path.basename(os.path.dirname(pat))
-    r = subprocess.run([os.path.join(V, "tools", "runmutant.py"), pat, p], capture_output=True, text=True)
-    ok = r.returncode == 0 and "VIOLATION" not in r.stdout
-    print("%s %-55s %s" % ("QUIET " if ok else "ALARM ", os.path.relpath(pat, V), "" if ok else [l.strip()[:160] for l in r.stdout.splitlines() if l.strip().startswith(p + ".")][:2]))
+    props = [p] if own else ALL
+    r = subprocess.run([os.path.join(V, "tools", "runmutant.py"), pat] + props, capture_output=True, text=True)
+    alarms = []
+    cur = None
+    for l in r.stdout.splitlines():
+        if l.startswith("== "):
+            cur = l.split()[1]
+            if "rc=0" not in l:
+                alarms.append(l.strip())
+        elif cur and l.strip().startswith(cur + ".") and alarms and alarms[-1].startswith("== " + cur):
+            alarms.append("      " + l.strip()[:200])
+    ok = not alarms and "PATCH-DOES-NOT-APPLY" not in r.stdout
+    print("%s %-55s %s" % ("QUIET " if ok else "ALARM ", os.path.relpath(pat, V), "(%d checks)" % len(props) if ok else ""))
+    for a in alarms[:6]:
+        print("      " + a)
+    if "PATCH-DOES-NOT-APPLY" in r.stdout:
+        print("      patch does not apply")
     bad += 0 if ok else 1
 print("alarms=%d" % bad)
 sys.exit(1 if bad else 0)
